@@ -2,6 +2,7 @@
   C12 — options gate the checks exactly; more checking never accepts more; no history.
 -/
 import TdxModel.Verify
+import TdxModel.Generated.Sites
 import TdxProofs.Lemmas.Verify
 import TdxProofs.Lemmas.VerifyConv
 
@@ -241,5 +242,13 @@ theorem unfixed_now_after (C : Crypto) (w : World) (q : QuoteV4) (o : Opts) (hn 
   unfold tdxQuote
   have hf2 : (!({ Fixes.all with f9 := false } : Fixes).f2 && ((some q).bind (·.header)).isNone) = false := rfl
   simp only [hf2, Bool.false_eq_true, ↓reduceIte, hc, hch, hext, hf, hn, Option.getD_none]
+
+/-- The only state a call can leave behind in the caller's `verify.Options` are the three unexported fields the model's
+    `stateAfter` speaks of (chain, PCK extensions, collateral — each overwritten by `tdxQuoteV4` before it is read) and,
+    before the repair of F9, `Now`.  Regenerated from the struct definition on every run: a new hidden field (a cache of
+    pools, chains or validation results) is new history the theorems above do not cover. -/
+theorem hidden_state_is_modelled :
+    Tdx.Gen.optionsHiddenFields = [("chain", "*verify.PCKCertificateChain"), ("collateral", "*verify.Collateral"),
+                               ("pckCertExtensions", "*pcs.PckExtensions")] := by decide
 
 end Tdx.Props.C12
